@@ -1198,6 +1198,8 @@ func rulesC09(r *Run) {
 	ruleIsCompleted(r, "R1")
 	ruleFilterCompaction(r, "R1") // a plan closed as Failed at start-up must not also be resumed
 	ruleSkipBlockIffTerminal(r, "R1")
+	ruleTerminalGroupNotRerun(r, "R1", smKey("PlanPostChecks"), "PostChecks")
+	ruleTerminalGroupNotRerun(r, "R1", smKey("PlanDeferredChecks"), "DeferredChecks")
 	ruleLaunchLoopPassesFinished(r, "R1")
 	ruleExecSeqFailedReturnsError(r, "R1")
 	ruleRunnerStartSilentStop(r, "R1")
@@ -3338,4 +3340,51 @@ func isZeroLit(e ast.Expr) bool {
 func isSliceOf(t types.Type, elem string) bool {
 	sl, ok := t.Underlying().(*types.Slice)
 	return ok && ShortType(sl.Elem()) == elem
+}
+
+// ruleTerminalGroupNotRerun (round-4 seed C09-7): a plan-level post- or deferred-check state never runs a group again whose
+// verdict is already durable. The plan's verdict is derived in End from the stored statuses of its groups, and fixPlan does
+// not look at the outcome of the deferred checks: a Failed (or Completed) group found by a restarted plan is the verdict —
+// running it again invokes the check plugins a second time, resets the group, and a check that passes this time turns a plan
+// whose deferred checks had durably failed into a Completed one. Assume "present ∧ Failed" / "present ∧ Completed" and
+// refute: no returning path that stays possible calls runChecksOnce on the group.
+func ruleTerminalGroupNotRerun(r *Run, rule, fnKey, group string) {
+	fn := r.fnByKey(rule, fnKey)
+	if fn == nil {
+		return
+	}
+	fl, paths, ok := r.flowPaths(rule, fn)
+	if !ok {
+		return
+	}
+	info := fl.Info
+	isG := fieldMatcher(info, "workflow.Plan", group)
+	atom := groupAtoms(info, isG)
+	for _, st := range []string{"workflow.Failed", "workflow.Completed"} {
+		asg := groupAssume(true, st)
+		bad := ""
+		var bpos token.Pos = fn.Decl.Pos()
+		n := 0
+		for i := range paths {
+			p := &paths[i]
+			if p.Exit != ExitReturn || PathRefuted(fl, p, -1, asg, atom) {
+				continue
+			}
+			n++
+			for _, e := range p.Ev {
+				if IsCall(e, smKey("runChecksOnce")) && e.Call != nil && bad == "" {
+					for _, a := range e.Call.Args {
+						if isG(ast.Unparen(a)) {
+							bad, bpos = "a path of "+ShortFn(fnKey)+" that is possible for a plan whose "+group+" are present and already "+strings.TrimPrefix(st, "workflow.")+" runs them again (exit guard "+ExitGuardKey(fl, p)+"): after a crash behind the write of the group its durable verdict is thrown away and the check plugins are invoked a second time", e.Pos
+						}
+					}
+				}
+			}
+		}
+		if n == 0 {
+			r.Unresolved(rule, ShortFn(fnKey)+" has a returning path for a present, "+st+" "+group)
+			continue
+		}
+		r.Check(rule, ShortFn(fnKey)+":"+strings.TrimPrefix(st, "workflow.")+"-"+group+"-not-run-again", bpos, bad == "", "%s", orOK(bad, "a group whose verdict is durable is not run again"))
+	}
 }
